@@ -107,6 +107,10 @@ type Run struct {
 	KnownHits map[string]int
 	Class     string
 	Nontriv   bool
+	// States / Trans: hashes of abstract states and transitions visited
+	// (history profiles), unioned over the batch by the supervisor.
+	States []uint64
+	Trans  []uint64
 
 	Sched *sched.Controller
 
@@ -201,6 +205,8 @@ type Result struct {
 	Infra   string         `json:"infra,omitempty"`
 	WallUS  int64          `json:"wall_us,omitempty"`
 	Frames  [][2]int       `json:"frames,omitempty"`
+	States  []uint64       `json:"states,omitempty"`
+	Trans   []uint64       `json:"trans,omitempty"`
 }
 
 // Profile is a named simulated workload with its oracles, owned by one
@@ -328,6 +334,8 @@ func Execute(p *Profile, tier string, seed uint64, t *tape.Tape, index int, hang
 		res.Known = r.KnownHits
 	}
 	res.Trace = r.trace
+	res.States = r.States
+	res.Trans = r.Trans
 	res.Tape = t.Values()
 	for _, f := range t.Frames {
 		res.Frames = append(res.Frames, [2]int{f.Start, f.End})
